@@ -135,7 +135,7 @@ def _volume_model(seed):
                        (None, rng.uniform(1, 50, shape)),
                        (rng.uniform(1, 3, shape), rng.uniform(1, 50, shape))):
             model = emg3d.Model(grid, mu_r=mu, epsilon_r=ep, **kw)
-            for f in (2.5, -3.0):
+            for f in (2.5, -3.0, 2.0e6, -1.0e7):
                 sf = emg3d.Field(grid, frequency=f)
                 vm = emg3d.models.VolumeModel(model, sf)
                 s = fit.sval(f)
@@ -145,10 +145,11 @@ def _volume_model(seed):
                 for got, sg in ((vm.eta_x, sig[0]), (vm.eta_y, sy),
                                 (vm.eta_z, sz)):
                     st = sg if ep is None else sg + s*fit.EPS0*ep
-                    if not np.allclose(got, -s*fit.MU0*vol*st, rtol=1e-14):
+                    if not np.allclose(got, -s*fit.MU0*vol*st, rtol=1e-13,
+                                       atol=0):
                         notes.append(f"eta, case {case}, f={f}")
                 z = vol if mu is None else vol/mu
-                if not np.allclose(vm.zeta, z, rtol=1e-15):
+                if not np.allclose(vm.zeta, z, rtol=1e-15, atol=0):
                     notes.append(f"zeta, case {case}")
                 if (vm.eta_y is vm.eta_x) != (case in (0, 2)) or \
                         (vm.eta_z is vm.eta_x) != (case in (0, 1)):
